@@ -57,9 +57,9 @@ func Origins(v ssa.Value) []Origin {
 		case *ssa.TypeAssert:
 			walk(x.X)
 		case *ssa.Parameter:
-			add("param", x.Name(), x)
+			add("param", VarName(x), x)
 		case *ssa.FreeVar:
-			add("freevar", x.Name(), x)
+			add("freevar", VarName(x), x)
 		case *ssa.Const:
 			add("const", constStr(x), x)
 		case *ssa.Global:
@@ -109,7 +109,7 @@ func Origins(v ssa.Value) []Origin {
 					add("global", Short(a.String()), x)
 					return
 				case *ssa.FreeVar:
-					add("freevar", a.Name(), x)
+					add("freevar", VarName(a), x)
 					return
 				}
 				add("op", Expr(x), x)
